@@ -1,1 +1,675 @@
-From C14 Require Import Generated Model Spec.
+(* C14/Proofs.v — (1) soundness of the history checker; (2) invariants of the client for ANY number of calls
+   (match / drain); (3) the live-dict cleanup loop refuted by a computed run. *)
+From Coq Require Import ZArith List Bool PeanoNat Lia.
+From C14 Require Import Model Spec.
+Import ListNotations.
+
+(* =========================================================================== (1) check_history is sound *)
+Lemma nth_error_upd : forall A (f : A -> A) l k j,
+  nth_error (upd k f l) j = if Nat.eqb k j then option_map f (nth_error l j) else nth_error l j.
+Proof.
+  intros A f. induction l as [|x r IH]; intros k j.
+  - destruct k, j; cbn; try reflexivity. destruct (Nat.eqb k j); reflexivity.
+  - destruct k as [|k], j as [|j]; cbn [upd nth_error Nat.eqb option_map]; try reflexivity. apply IH.
+Qed.
+
+Lemma upd_length : forall A (f : A -> A) l k, length (upd k f l) = length l.
+Proof. intros A f. induction l as [|x r IH]; intros [|k]; cbn; try reflexivity. rewrite IH. reflexivity. Qed.
+
+Lemma body_eqb_eq : forall a b, body_eqb a b = true -> a = b.
+Proof. intros [x|] [y|] H; cbn in H; try discriminate; [apply Z.eqb_eq in H; subst|]; reflexivity. Qed.
+
+Lemma mon_run_snoc : forall m p e, mon_run m (p ++ [e]) = mon_step (mon_run m p) e.
+Proof. intros. unfold mon_run. rewrite fold_left_app. reflexivity. Qed.
+
+Lemma mon_step_bad : forall m e, m_bad m = true -> m_bad (mon_step m e) = true.
+Proof.
+  intros m e H. destruct e as [k|k|k b| |k b|k x|k]; cbn [mon_step]; try exact H;
+    destruct (nth_error (m_st m) k) as [[| |b'|]|]; cbn; try exact H;
+    try (destruct (body_eqb b b'); cbn; auto); try (destruct (m_lost m); cbn; auto).
+Qed.
+
+Definition nocomp (k : nat) (p : list event) : Prop := forall e, In e p -> completion_of k e = false.
+Definition done_once (k : nat) (p : list event) : Prop :=
+  exists p1 p2 e, p = p1 ++ e :: p2 /\ completion_of k e = true /\ In (ECall k) p1 /\
+                  forall e', In e' (p1 ++ p2) -> completion_of k e' = false.
+
+Definition kinv (p : list event) (st : option mstat) (k : nat) : Prop :=
+  match st with
+  | None | Some MIdle => ~ In (ECall k) p /\ nocomp k p
+  | Some MCalled => In (ECall k) p /\ nocomp k p
+  | Some (MAnswered b) => In (ECall k) p /\ nocomp k p /\ In (EResp k b) p
+  | Some MDone => done_once k p
+  end.
+
+Record minv (p : list event) (m : mon) : Prop := {
+  mi_lost : m_lost m = true -> In ELoss p;
+  mi_k : forall k, kinv p (nth_error (m_st m) k) k;
+  mi_ret : forall h1 h2 k b, p = h1 ++ ERet k b :: h2 -> In (EResp k b) h1;
+  mi_raise : forall h1 h2 k e, p = h1 ++ ERaise k e :: h2 -> In ELoss h1;
+  mi_noop : forall h1 h2 k, p = h1 ++ ENoop k :: h2 -> In ELoss h1
+}.
+
+Lemma snoc_split : forall A (p : list A) e h1 x h2, p ++ [e] = h1 ++ x :: h2 ->
+  (h2 = [] /\ h1 = p /\ x = e) \/ (exists h2', h2 = h2' ++ [e] /\ p = h1 ++ x :: h2').
+Proof.
+  intros A p e h1 x h2 H.
+  destruct h2 as [|y h2] using rev_ind.
+  - left. apply app_inj_tail in H. destruct H as [Hp He]. auto.
+  - clear IHh2. right.
+    replace (h1 ++ x :: h2 ++ [y]) with ((h1 ++ x :: h2) ++ [y]) in H by (rewrite <- app_assoc; reflexivity).
+    apply app_inj_tail in H. destruct H as [Hp He]. subst y. exists h2. split; [reflexivity|exact Hp].
+Qed.
+
+Lemma nocomp_snoc : forall k p e, nocomp k p -> completion_of k e = false -> nocomp k (p ++ [e]).
+Proof.
+  intros k p e Hn He x Hx. apply in_app_or in Hx. destruct Hx as [Hx|[Hx|[]]]; [apply Hn; exact Hx|subst; exact He].
+Qed.
+
+Lemma done_once_snoc : forall k p e, done_once k p -> completion_of k e = false -> done_once k (p ++ [e]).
+Proof.
+  intros k p e [p1 [p2 [x [Hp [Hx [Hc Hn]]]]]] He.
+  exists p1, (p2 ++ [e]), x. split; [subst p; rewrite <- app_assoc; reflexivity|].
+  split; [exact Hx|]. split; [exact Hc|].
+  intros e' Hin. rewrite app_assoc in Hin. apply in_app_or in Hin. destruct Hin as [Hin|[Hin|[]]]; [apply Hn; exact Hin|subst; exact He].
+Qed.
+
+(* an event that neither is ECall k / EResp k nor completes k leaves k's clause alone *)
+Lemma kinv_snoc_other : forall p st k e, kinv p st k -> completion_of k e = false -> e <> ECall k ->
+  kinv (p ++ [e]) st k.
+Proof.
+  intros p st k e H Hc Hne.
+  assert (Hcall : ~ In (ECall k) p -> ~ In (ECall k) (p ++ [e])).
+  { intros Hn Hin. apply in_app_or in Hin. destruct Hin as [Hin|[Hin|[]]]; [exact (Hn Hin)|exact (Hne Hin)]. }
+  destruct st as [[| |b|]|]; cbn [kinv] in *.
+  - destruct H as [H1 H2]. split; [apply Hcall; exact H1|apply nocomp_snoc; assumption].
+  - destruct H as [H1 H2]. split; [apply in_or_app; left; exact H1|apply nocomp_snoc; assumption].
+  - destruct H as [H1 [H2 H3]]. split; [apply in_or_app; left; exact H1|].
+    split; [apply nocomp_snoc; assumption|apply in_or_app; left; exact H3].
+  - apply done_once_snoc; assumption.
+  - destruct H as [H1 H2]. split; [apply Hcall; exact H1|apply nocomp_snoc; assumption].
+Qed.
+
+Lemma completion_of_other : forall k j e, completion_of j e = true -> k <> j -> completion_of k e = false.
+Proof.
+  intros k j e H Hne. destruct e; cbn in *; try reflexivity;
+    apply Nat.eqb_eq in H; subst; apply Nat.eqb_neq; auto.
+Qed.
+
+(* clauses about the whole history survive an event that is not itself a completion of the clause's kind *)
+Lemma minv_globals_snoc : forall p m e,
+  minv p m ->
+  (forall k b, e = ERet k b -> In (EResp k b) p) ->
+  (forall k x, e = ERaise k x -> In ELoss p) ->
+  (forall k, e = ENoop k -> In ELoss p) ->
+  (forall h1 h2 k b, p ++ [e] = h1 ++ ERet k b :: h2 -> In (EResp k b) h1) /\
+  (forall h1 h2 k x, p ++ [e] = h1 ++ ERaise k x :: h2 -> In ELoss h1) /\
+  (forall h1 h2 k, p ++ [e] = h1 ++ ENoop k :: h2 -> In ELoss h1).
+Proof.
+  intros p m e Hm H1 H2 H3. repeat split.
+  - intros h1 h2 k b Heq. apply snoc_split in Heq. destruct Heq as [[_ [-> He]]|[h2' [_ Hp]]].
+    + apply (H1 k b). symmetry. exact He.
+    + exact (mi_ret p m Hm _ _ _ _ Hp).
+  - intros h1 h2 k x Heq. apply snoc_split in Heq. destruct Heq as [[_ [-> He]]|[h2' [_ Hp]]].
+    + apply (H2 k x). symmetry. exact He.
+    + exact (mi_raise p m Hm _ _ _ _ Hp).
+  - intros h1 h2 k Heq. apply snoc_split in Heq. destruct Heq as [[_ [-> He]]|[h2' [_ Hp]]].
+    + apply (H3 k). symmetry. exact He.
+    + exact (mi_noop p m Hm _ _ _ Hp).
+Qed.
+
+Lemma kinv_complete : forall p k e, In (ECall k) p -> nocomp k p -> completion_of k e = true ->
+  done_once k (p ++ [e]).
+Proof.
+  intros p k e Hc Hn He. exists p, [], e. split; [reflexivity|]. split; [exact He|]. split; [exact Hc|].
+  intros e' Hin. rewrite app_nil_r in Hin. apply Hn. exact Hin.
+Qed.
+
+Lemma minv_step : forall p m e, minv p m -> m_bad (mon_step m e) = false -> minv (p ++ [e]) (mon_step m e).
+Proof.
+  intros p m e Hm Hb.
+  assert (Hlost_keep : forall m', m_lost m' = m_lost m -> m_lost m' = true -> In ELoss (p ++ [e])).
+  { intros m' E H. rewrite E in H. apply in_or_app. left. exact (mi_lost p m Hm H). }
+  destruct e as [j|j|j b| |j b|j x|j]; cbn [mon_step] in *.
+  - (* ECall j *)
+    destruct (nth_error (m_st m) j) as [[| |b'|]|] eqn:Hj; try (cbn in Hb; discriminate).
+    destruct (minv_globals_snoc p m (ECall j) Hm) as [G1 [G2 G3]]; try (intros; discriminate).
+    constructor; [apply Hlost_keep; reflexivity| |exact G1|exact G2|exact G3].
+    intros k. unfold mupd. cbn [m_st]. rewrite nth_error_upd.
+    destruct (Nat.eqb j k) eqn:Ejk.
+    + apply Nat.eqb_eq in Ejk. subst k. rewrite Hj. cbn [option_map kinv].
+      pose proof (mi_k p m Hm j) as Hk. rewrite Hj in Hk. cbn [kinv] in Hk. destruct Hk as [_ Hn].
+      split; [apply in_or_app; right; left; reflexivity|apply nocomp_snoc; [exact Hn|reflexivity]].
+    + apply kinv_snoc_other; [exact (mi_k p m Hm k)|reflexivity|].
+      intros E. inversion E. subst. rewrite Nat.eqb_refl in Ejk. discriminate.
+  - (* ESent *)
+    destruct (minv_globals_snoc p m (ESent j) Hm) as [G1 [G2 G3]]; try (intros; discriminate).
+    constructor; [apply Hlost_keep; reflexivity| |exact G1|exact G2|exact G3].
+    intros k. apply kinv_snoc_other; [exact (mi_k p m Hm k)|reflexivity|discriminate].
+  - (* EResp j b *)
+    destruct (minv_globals_snoc p m (EResp j b) Hm) as [G1 [G2 G3]]; try (intros; discriminate).
+    assert (Hother : forall k, kinv (p ++ [EResp j b]) (nth_error (m_st m) k) k).
+    { intros k. apply kinv_snoc_other; [exact (mi_k p m Hm k)|reflexivity|discriminate]. }
+    destruct (nth_error (m_st m) j) as [[| |b'|]|] eqn:Hj;
+      try (constructor; [apply Hlost_keep; reflexivity|exact Hother|exact G1|exact G2|exact G3]).
+    constructor; [apply Hlost_keep; reflexivity| |exact G1|exact G2|exact G3].
+    intros k. unfold mupd. cbn [m_st]. rewrite nth_error_upd.
+    destruct (Nat.eqb j k) eqn:Ejk; [|exact (Hother k)].
+    apply Nat.eqb_eq in Ejk. subst k. rewrite Hj. cbn [option_map kinv].
+    pose proof (Hother j) as Hk. rewrite Hj in Hk. cbn [kinv] in Hk. destruct Hk as [Hc Hn].
+    split; [exact Hc|]. split; [exact Hn|]. apply in_or_app. right. left. reflexivity.
+  - (* ELoss *)
+    destruct (minv_globals_snoc p m ELoss Hm) as [G1 [G2 G3]]; try (intros; discriminate).
+    constructor; [intros _; apply in_or_app; right; left; reflexivity| |exact G1|exact G2|exact G3].
+    intros k. cbn [m_st]. apply kinv_snoc_other; [exact (mi_k p m Hm k)|reflexivity|discriminate].
+  - (* ERet j b *)
+    destruct (nth_error (m_st m) j) as [[| |b'|]|] eqn:Hj; try (cbn in Hb; discriminate).
+    destruct (body_eqb b b') eqn:Eb; [|cbn in Hb; discriminate].
+    apply body_eqb_eq in Eb. subst b'.
+    pose proof (mi_k p m Hm j) as Hk. rewrite Hj in Hk. cbn [kinv] in Hk. destruct Hk as [Hc [Hn Hr]].
+    destruct (minv_globals_snoc p m (ERet j b) Hm) as [G1 [G2 G3]]; try (intros; discriminate).
+    { intros k0 b0 E. inversion E; subst. exact Hr. }
+    constructor; [apply Hlost_keep; reflexivity| |exact G1|exact G2|exact G3].
+    intros k. unfold mupd. cbn [m_st]. rewrite nth_error_upd.
+    destruct (Nat.eqb j k) eqn:Ejk.
+    + apply Nat.eqb_eq in Ejk. subst k. rewrite Hj. cbn [option_map kinv].
+      apply kinv_complete; [exact Hc|exact Hn|cbn; apply Nat.eqb_refl].
+    + apply kinv_snoc_other; [exact (mi_k p m Hm k)| |discriminate].
+      cbn. apply Nat.eqb_neq. intros E. subst. rewrite Nat.eqb_refl in Ejk. discriminate.
+  - (* ERaise j x *)
+    destruct (nth_error (m_st m) j) as [[| |b'|]|] eqn:Hj; try (cbn in Hb; discriminate).
+    destruct (m_lost m) eqn:El; [|cbn in Hb; discriminate].
+    pose proof (mi_lost p m Hm El) as HL.
+    pose proof (mi_k p m Hm j) as Hk. rewrite Hj in Hk. cbn [kinv] in Hk. destruct Hk as [Hc Hn].
+    destruct (minv_globals_snoc p m (ERaise j x) Hm) as [G1 [G2 G3]]; try (intros; discriminate).
+    { intros; exact HL. }
+    constructor; [intros _; apply in_or_app; left; exact HL| |exact G1|exact G2|exact G3].
+    intros k. unfold mupd. cbn [m_st]. rewrite nth_error_upd.
+    destruct (Nat.eqb j k) eqn:Ejk.
+    + apply Nat.eqb_eq in Ejk. subst k. rewrite Hj. cbn [option_map kinv].
+      apply kinv_complete; [exact Hc|exact Hn|cbn; apply Nat.eqb_refl].
+    + apply kinv_snoc_other; [exact (mi_k p m Hm k)| |discriminate].
+      cbn. apply Nat.eqb_neq. intros E. subst. rewrite Nat.eqb_refl in Ejk. discriminate.
+  - (* ENoop j *)
+    destruct (nth_error (m_st m) j) as [[| |b'|]|] eqn:Hj; try (cbn in Hb; discriminate).
+    destruct (m_lost m) eqn:El; [|cbn in Hb; discriminate].
+    pose proof (mi_lost p m Hm El) as HL.
+    pose proof (mi_k p m Hm j) as Hk. rewrite Hj in Hk. cbn [kinv] in Hk. destruct Hk as [Hc Hn].
+    destruct (minv_globals_snoc p m (ENoop j) Hm) as [G1 [G2 G3]]; try (intros; discriminate).
+    { intros; exact HL. }
+    constructor; [intros _; apply in_or_app; left; exact HL| |exact G1|exact G2|exact G3].
+    intros k. unfold mupd. cbn [m_st]. rewrite nth_error_upd.
+    destruct (Nat.eqb j k) eqn:Ejk.
+    + apply Nat.eqb_eq in Ejk. subst k. rewrite Hj. cbn [option_map kinv].
+      apply kinv_complete; [exact Hc|exact Hn|cbn; apply Nat.eqb_refl].
+    + apply kinv_snoc_other; [exact (mi_k p m Hm k)| |discriminate].
+      cbn. apply Nat.eqb_neq. intros E. subst. rewrite Nat.eqb_refl in Ejk. discriminate.
+Qed.
+
+Lemma minv_init : forall n, minv [] (mon_init n).
+Proof.
+  intros n. constructor.
+  - cbn. discriminate.
+  - intros k. unfold mon_init. cbn [m_st].
+    destruct (nth_error (repeat MIdle n) k) as [x|] eqn:E.
+    + apply nth_error_In in E. apply repeat_spec in E. subst x. cbn. split; [tauto|intros e []].
+    + cbn. split; [tauto|intros e []].
+  - intros h1 h2 k b H. destruct h1; discriminate.
+  - intros h1 h2 k e H. destruct h1; discriminate.
+  - intros h1 h2 k H. destruct h1; discriminate.
+Qed.
+
+Lemma minv_run : forall n h, m_bad (mon_run (mon_init n) h) = false -> minv h (mon_run (mon_init n) h).
+Proof.
+  intros n h. induction h as [|e p IH] using rev_ind; intros Hb.
+  - apply minv_init.
+  - rewrite mon_run_snoc in *. apply minv_step; [|exact Hb].
+    apply IH. destruct (m_bad (mon_run (mon_init n) p)) eqn:E; [|reflexivity].
+    rewrite (mon_step_bad _ e E) in Hb. discriminate.
+Qed.
+
+Theorem check_history_sound : forall n h, check_history n h = true -> hist_ok h.
+Proof.
+  intros n h H. unfold check_history, mon_accept in H. apply andb_true_iff in H. destruct H as [Hb Hs].
+  apply negb_true_iff in Hb. pose proof (minv_run n h Hb) as Hm.
+  unfold hist_ok. split; [|split; [exact (mi_ret _ _ Hm)|split; [exact (mi_raise _ _ Hm)|exact (mi_noop _ _ Hm)]]].
+  intros k Hc. pose proof (mi_k _ _ Hm k) as Hk.
+  rewrite forallb_forall in Hs.
+  destruct (nth_error (m_st (mon_run (mon_init n) h)) k) as [st|] eqn:E.
+  - pose proof (Hs _ (nth_error_In _ _ E)) as Hst.
+    destruct st; cbn in Hst; try discriminate; cbn [kinv] in Hk.
+    + destruct Hk as [Hk _]. contradiction.
+    + exact Hk.
+  - cbn [kinv] in Hk. destruct Hk as [Hk _]. contradiction.
+Qed.
+
+(* =========================================================================== (2) invariants, any number of calls *)
+Definition fl_ok (fl : flags) : Prop := f_snapshot fl = true /\ f_clear_writer fl = true.
+
+Inductive reach (fl : flags) (s0 : state) : state -> Prop :=
+| reach_init : reach fl s0 s0
+| reach_step : forall s a s' ev, reach fl s0 s -> step fl s a = Some (s', ev) -> reach fl s0 s'.
+
+Definition pend_ok (c : call) : Prop :=
+  c_fut c = FUnres /\ (c_pc c = PRegd \/ c_pc c = PSched \/ c_pc c = PAwait \/ c_pc c = PDone (RExc XAttr)).
+
+Record inv (s : state) : Prop := {
+  i_nodup : NoDup (pending s);
+  i_pend : forall k, In k (pending s) -> exists c, nth_error (calls s) k = Some c /\ pend_ok c;
+  i_lst : lst s = LRun \/ lst s = LExit;
+  i_writer : writer s = is_run (lst s);
+  i_reg : forall k c, nth_error (calls s) k = Some c -> (c_pc c = PRegd \/ c_pc c = PSched \/ c_pc c = PAwait) ->
+                      c_fut c = FUnres -> lst s = LRun -> In k (pending s);
+  i_await : forall k c, nth_error (calls s) k = Some c -> c_pc c = PAwait -> c_fut c = FUnres -> lst s = LRun
+}.
+
+Lemma set_fut_idem : forall f c, set_fut f (set_fut f c) = set_fut f c.
+Proof. intros f [a b c d]. reflexivity. Qed.
+
+Lemma mem_nat_In : forall k l, mem_nat k l = true <-> In k l.
+Proof.
+  intros k l. unfold mem_nat. rewrite existsb_exists. split.
+  - intros [x [Hx E]]. apply Nat.eqb_eq in E. subst. exact Hx.
+  - intros H. exists k. split; [exact H|apply Nat.eqb_refl].
+Qed.
+
+Lemma fail_all_nth : forall e pend cs j,
+  nth_error (fail_all e pend cs) j =
+  match nth_error cs j with
+  | Some c => Some (if mem_nat j pend then set_fut (FExc e) c else c)
+  | None => None
+  end.
+Proof.
+  intros e. induction pend as [|k r IH]; intros cs j.
+  - cbn. destruct (nth_error cs j); reflexivity.
+  - unfold fail_all. cbn [fold_left]. fold (fail_all e r (upd k (set_fut (FExc e)) cs)).
+    rewrite IH. rewrite nth_error_upd. unfold mem_nat. cbn [existsb].
+    fold (mem_nat j r). rewrite (Nat.eqb_sym j k).
+    destruct (Nat.eqb k j); destruct (nth_error cs j) as [c|]; cbn [option_map orb]; try reflexivity.
+    destruct (mem_nat j r); [rewrite set_fut_idem|]; reflexivity.
+Qed.
+
+Lemma remove_nat_In : forall j k l, In j (remove_nat k l) <-> In j l /\ j <> k.
+Proof.
+  intros j k l. unfold remove_nat. rewrite filter_In. split; intros [H1 H2]; split; try exact H1.
+  - apply negb_true_iff in H2. apply Nat.eqb_neq in H2. exact H2.
+  - apply negb_true_iff. apply Nat.eqb_neq. exact H2.
+Qed.
+
+Lemma NoDup_snoc : forall (l : list nat) k, NoDup l -> ~ In k l -> NoDup (l ++ [k]).
+Proof.
+  induction l as [|x r IH]; intros k Hnd Hni; cbn.
+  - constructor; [intros []|constructor].
+  - inversion Hnd; subst. constructor.
+    + intros Hin. apply in_app_or in Hin. destruct Hin as [Hin|[Hin|[]]]; [contradiction|].
+      subst. apply Hni. left. reflexivity.
+    + apply IH; [assumption|]. intros Hin. apply Hni. right. exact Hin.
+Qed.
+
+Lemma inv_init : forall closers, inv (init closers).
+Proof.
+  intros closers. constructor; cbn.
+  - constructor.
+  - intros k [].
+  - left; reflexivity.
+  - reflexivity.
+  - intros k c Hn Hp. rewrite nth_error_map in Hn. destruct (nth_error closers k); [|discriminate].
+    inversion Hn; subst. cbn in Hp. destruct Hp as [Hp|[Hp|Hp]]; discriminate.
+  - intros k c Hn Hp. rewrite nth_error_map in Hn. destruct (nth_error closers k); [|discriminate].
+    inversion Hn; subst. discriminate.
+Qed.
+
+(* a step that only rewrites call k *)
+Lemma inv_updc : forall s k c f, inv s -> nth_error (calls s) k = Some c ->
+  (In k (pending s) -> pend_ok (f c)) ->
+  ((c_pc (f c) = PRegd \/ c_pc (f c) = PSched \/ c_pc (f c) = PAwait) -> c_fut (f c) = FUnres -> lst s = LRun -> In k (pending s)) ->
+  (c_pc (f c) = PAwait -> c_fut (f c) = FUnres -> lst s = LRun) ->
+  inv (updc s k f).
+Proof.
+  intros s k c f Hi Hn Ha Hb Hc. constructor; unfold updc, with_calls; cbn [calls pending lst writer].
+  - exact (i_nodup s Hi).
+  - intros j Hj. rewrite nth_error_upd. destruct (Nat.eqb k j) eqn:E.
+    + apply Nat.eqb_eq in E. subst j. rewrite Hn. cbn. eexists. split; [reflexivity|]. exact (Ha Hj).
+    + exact (i_pend s Hi j Hj).
+  - exact (i_lst s Hi).
+  - exact (i_writer s Hi).
+  - intros j c' Hj. rewrite nth_error_upd in Hj. destruct (Nat.eqb k j) eqn:E.
+    + apply Nat.eqb_eq in E. subst j. rewrite Hn in Hj. cbn in Hj. inversion Hj; subst. exact Hb.
+    + exact (i_reg s Hi j c' Hj).
+  - intros j c' Hj. rewrite nth_error_upd in Hj. destruct (Nat.eqb k j) eqn:E.
+    + apply Nat.eqb_eq in E. subst j. rewrite Hn in Hj. cbn in Hj. inversion Hj; subst. exact Hc.
+    + exact (i_await s Hi j c' Hj).
+Qed.
+
+Lemma inv_teardown : forall fl e s, fl_ok fl ->
+  (forall j c, nth_error (calls s) j = Some c -> c_pc c = PAwait -> c_fut c = FUnres -> In j (pending s)) ->
+  inv (teardown fl e s).
+Proof.
+  intros fl e s [Hs Hw] Hp. unfold teardown. rewrite Hs, Hw. constructor; cbn [calls pending lst writer].
+  - constructor.
+  - intros k [].
+  - right; reflexivity.
+  - reflexivity.
+  - intros k c _ _ _ H. discriminate.
+  - intros k c Hn Hpc Hf. exfalso. rewrite fail_all_nth in Hn.
+    destruct (nth_error (calls s) k) as [c0|] eqn:E; [|discriminate]. inversion Hn; subst c. clear Hn.
+    destruct (mem_nat k (pending s)) eqn:Em.
+    + cbn in Hf. discriminate.
+    + assert (In k (pending s)) as Hin by (apply (Hp k c0 E Hpc Hf)).
+      apply mem_nat_In in Hin. rewrite Hin in Em. discriminate.
+Qed.
+
+Lemma inv_await_pending : forall s, inv s -> lst s = LRun ->
+  forall j c, nth_error (calls s) j = Some c -> c_pc c = PAwait -> c_fut c = FUnres -> In j (pending s).
+Proof. intros s Hi Hl j c Hn Hp Hf. apply (i_reg s Hi j c Hn); auto. Qed.
+
+Lemma is_run_true : forall l, is_run l = true -> l = LRun.
+Proof. intros []; cbn; intros; try discriminate; reflexivity. Qed.
+
+Lemma pend_not : forall s k c, inv s -> nth_error (calls s) k = Some c ->
+  ~ (c_pc c = PRegd \/ c_pc c = PSched \/ c_pc c = PAwait \/ c_pc c = PDone (RExc XAttr)) -> ~ In k (pending s).
+Proof.
+  intros s k c Hi Hn Hnot Hin. destruct (i_pend s Hi k Hin) as [c' [Hn' [_ Hpc]]].
+  rewrite Hn in Hn'. inversion Hn'; subst. exact (Hnot Hpc).
+Qed.
+
+Lemma pend_fut : forall s k c, inv s -> nth_error (calls s) k = Some c -> In k (pending s) -> c_fut c = FUnres.
+Proof.
+  intros s k c Hi Hn Hin. destruct (i_pend s Hi k Hin) as [c' [Hn' [Hf _]]].
+  rewrite Hn in Hn'. inversion Hn'; subst. exact Hf.
+Qed.
+
+Ltac pcs := repeat match goal with
+  | H : _ \/ _ |- _ => destruct H
+  | H : PIdle = _ |- _ => discriminate H | H : PChecked = _ |- _ => discriminate H | H : PRegd = _ |- _ => discriminate H
+  | H : PSched = _ |- _ => discriminate H | H : PAwait = _ |- _ => discriminate H | H : PDone _ = _ |- _ => discriminate H
+  end.
+
+Lemma inv_step : forall fl s a s' ev, fl_ok fl -> inv s -> step fl s a = Some (s', ev) -> inv s'.
+Proof.
+  intros fl s a s' ev Hfl Hi Hs.
+  destruct a as [k|k|k|k|k|k ok|ok| | | |]; cbn [step] in Hs.
+  - (* AInvoke *)
+    destruct (nth_error (calls s) k) as [c|] eqn:Hn; [|discriminate].
+    destruct (c_pc c) eqn:Hpc; try discriminate.
+    assert (Hnp : ~ In k (pending s)).
+    { apply (pend_not s k c Hi Hn). rewrite Hpc. intros H. pcs. }
+    destruct (c_close c && negb (running s)); [|destruct (copen s)]; inversion Hs; subst;
+      (apply (inv_updc s k c _ Hi Hn); [intros H; contradiction|cbn; intros H; pcs|cbn; intros H; pcs]).
+  - (* ARegister *)
+    destruct (nth_error (calls s) k) as [c|] eqn:Hn; [|discriminate].
+    destruct (c_pc c) eqn:Hpc; try discriminate.
+    assert (Hnp : ~ In k (pending s)).
+    { apply (pend_not s k c Hi Hn). rewrite Hpc. intros H. pcs. }
+    assert (Hl : match lst s with LClean e i _ => LClean e i true | l => l end = lst s).
+    { destruct (i_lst s Hi) as [E|E]; rewrite E; reflexivity. }
+    rewrite Hl in Hs. inversion Hs; subst. clear Hs.
+    constructor; unfold with_lst, with_pending, updc, with_calls; cbn [calls pending lst writer].
+    + apply NoDup_snoc; [exact (i_nodup s Hi)|exact Hnp].
+    + intros j Hj. rewrite nth_error_upd. apply in_app_or in Hj. destruct (Nat.eqb k j) eqn:E.
+      * apply Nat.eqb_eq in E. subst j. rewrite Hn. cbn. eexists. split; [reflexivity|].
+        split; [reflexivity|left; reflexivity].
+      * destruct Hj as [Hj|[Hj|[]]]; [exact (i_pend s Hi j Hj)|]. subst. rewrite Nat.eqb_refl in E. discriminate.
+    + exact (i_lst s Hi).
+    + exact (i_writer s Hi).
+    + intros j c' Hj Hp Hf Hr. rewrite nth_error_upd in Hj. apply in_or_app. destruct (Nat.eqb k j) eqn:E.
+      * apply Nat.eqb_eq in E. subst j. right. left. reflexivity.
+      * left. exact (i_reg s Hi j c' Hj Hp Hf Hr).
+    + intros j c' Hj Hp Hf. rewrite nth_error_upd in Hj. destruct (Nat.eqb k j) eqn:E.
+      * apply Nat.eqb_eq in E. subst j. rewrite Hn in Hj. cbn in Hj. inversion Hj; subst. cbn in Hp. discriminate.
+      * exact (i_await s Hi j c' Hj Hp Hf).
+  - (* ASchedule *)
+    destruct (nth_error (calls s) k) as [c|] eqn:Hn; [|discriminate].
+    destruct (c_pc c) eqn:Hpc; try discriminate. inversion Hs; subst. clear Hs.
+    apply (inv_updc s k c _ Hi Hn).
+    + intros Hin. split; [exact (pend_fut s k c Hi Hn Hin)|right; left; reflexivity].
+    + cbn. intros _ Hf Hr. apply (i_reg s Hi k c Hn); [left; exact Hpc|exact Hf|exact Hr].
+    + cbn. intros H; discriminate.
+  - (* ASend *)
+    destruct (nth_error (calls s) k) as [c|] eqn:Hn; [|discriminate].
+    destruct (c_pc c) eqn:Hpc; try discriminate.
+    destruct (writer s) eqn:Hw; inversion Hs; subst; clear Hs.
+    + assert (Hr : lst s = LRun) by (apply is_run_true; rewrite <- (i_writer s Hi); exact Hw).
+      apply (inv_updc s k c _ Hi Hn).
+      * intros Hin. split; [exact (pend_fut s k c Hi Hn Hin)|right; right; left; reflexivity].
+      * cbn. intros _ Hf _. apply (i_reg s Hi k c Hn); [right; left; exact Hpc|exact Hf|exact Hr].
+      * intros _ _. exact Hr.
+    + apply (inv_updc s k c _ Hi Hn).
+      * intros Hin. split; [exact (pend_fut s k c Hi Hn Hin)|right; right; right; reflexivity].
+      * cbn. intros H; pcs.
+      * cbn. intros H; discriminate.
+  - (* AComplete *)
+    destruct (nth_error (calls s) k) as [c|] eqn:Hn; [|discriminate].
+    destruct (c_pc c) eqn:Hpc; try discriminate.
+    destruct (c_fut c) eqn:Hf; try discriminate; inversion Hs; subst; clear Hs;
+      (apply (inv_updc s k c _ Hi Hn);
+       [intros Hin; pose proof (pend_fut s k c Hi Hn Hin) as E; rewrite Hf in E; discriminate
+       |cbn; intros H; pcs|cbn; intros H; discriminate]).
+  - (* AResp *)
+    destruct (nth_error (calls s) k) as [c|] eqn:Hn; [|discriminate].
+    destruct (c_sent c && is_run (lst s)) eqn:Hg; [|discriminate].
+    apply andb_true_iff in Hg. destruct Hg as [_ Hr]. apply is_run_true in Hr.
+    pose proof (inv_await_pending s Hi Hr) as Hap.
+    destruct (mem_nat k (pending s)) eqn:Em.
+    + (* matched: pop + set_result *)
+      set (s1 := with_pending (updc s k (set_fut (FVal (resp_body k c)))) (remove_nat k (pending s))) in *.
+      assert (Hap1 : forall j c', nth_error (calls s1) j = Some c' -> c_pc c' = PAwait -> c_fut c' = FUnres -> In j (pending s1)).
+      { intros j c' Hj Hp Hf. unfold s1, with_pending, updc, with_calls in *. cbn [calls pending] in *.
+        rewrite nth_error_upd in Hj. destruct (Nat.eqb k j) eqn:E.
+        - apply Nat.eqb_eq in E. subst j. rewrite Hn in Hj. cbn in Hj. inversion Hj; subst. cbn in Hf. discriminate.
+        - apply remove_nat_In. split; [exact (Hap j c' Hj Hp Hf)|].
+          intros E'. subst. rewrite Nat.eqb_refl in E. discriminate. }
+      destruct (resp_body k c) eqn:Eb.
+      * inversion Hs; subst; clear Hs.
+        constructor; unfold s1, with_pending, updc, with_calls; cbn [calls pending lst writer].
+        -- apply NoDup_filter. exact (i_nodup s Hi).
+        -- intros j Hj. apply remove_nat_In in Hj. destruct Hj as [Hj Hne]. rewrite nth_error_upd.
+           destruct (Nat.eqb k j) eqn:E; [apply Nat.eqb_eq in E; subst; contradiction|]. exact (i_pend s Hi j Hj).
+        -- exact (i_lst s Hi).
+        -- exact (i_writer s Hi).
+        -- intros j c' Hj Hp Hf Hr'. rewrite nth_error_upd in Hj. destruct (Nat.eqb k j) eqn:E.
+           ++ apply Nat.eqb_eq in E. subst j. rewrite Hn in Hj. cbn in Hj. inversion Hj; subst. cbn in Hf. discriminate.
+           ++ apply remove_nat_In. split; [exact (i_reg s Hi j c' Hj Hp Hf Hr')|].
+              intros E'. subst. rewrite Nat.eqb_refl in E. discriminate.
+        -- intros j c' Hj Hp Hf. rewrite nth_error_upd in Hj. destruct (Nat.eqb k j) eqn:E.
+           ++ apply Nat.eqb_eq in E. subst j. rewrite Hn in Hj. cbn in Hj. inversion Hj; subst. cbn in Hf. discriminate.
+           ++ exact (i_await s Hi j c' Hj Hp Hf).
+      * inversion Hs; subst; clear Hs. apply inv_teardown; [exact Hfl|]. exact Hap1.
+    + destruct (resp_body k c) eqn:Eb.
+      * unfold dispatch_msg in Hs. destruct ok; inversion Hs; subst; clear Hs; [exact Hi|].
+        apply inv_teardown; [exact Hfl|exact Hap].
+      * inversion Hs; subst; clear Hs. apply inv_teardown; [exact Hfl|exact Hap].
+  - (* APush *)
+    destruct (is_run (lst s)) eqn:Hr; [|discriminate]. apply is_run_true in Hr.
+    unfold dispatch_msg in Hs. destruct ok; inversion Hs; subst; clear Hs; [exact Hi|].
+    apply inv_teardown; [exact Hfl|exact (inv_await_pending s Hi Hr)].
+  - (* ACloseReq *)
+    destruct (is_run (lst s)) eqn:Hr; [|discriminate]. apply is_run_true in Hr.
+    inversion Hs; subst; clear Hs. apply inv_teardown; [exact Hfl|exact (inv_await_pending s Hi Hr)].
+  - (* ACut *)
+    destruct (is_run (lst s)) eqn:Hr; [|discriminate]. apply is_run_true in Hr.
+    inversion Hs; subst; clear Hs. apply inv_teardown; [exact Hfl|exact (inv_await_pending s Hi Hr)].
+  - (* AReset *)
+    destruct (is_run (lst s)) eqn:Hr; [|discriminate]. apply is_run_true in Hr.
+    inversion Hs; subst; clear Hs. apply inv_teardown; [exact Hfl|exact (inv_await_pending s Hi Hr)].
+  - (* AClean: the loop does not exist when a copy is iterated *)
+    destruct (i_lst s Hi) as [E|E]; rewrite E in Hs; discriminate.
+Qed.
+
+Lemma inv_reach : forall fl closers s, fl_ok fl -> reach fl (init closers) s -> inv s.
+Proof.
+  intros fl closers s Hfl Hr. induction Hr as [|s a s' ev Hr IH Hs].
+  - apply inv_init.
+  - exact (inv_step fl s a s' ev Hfl IH Hs).
+Qed.
+
+(* T14.match: every key of pending_responses is unique and its future unresolved *)
+Theorem match_invariant : forall fl closers s, fl_ok fl -> reach fl (init closers) s ->
+  NoDup (pending s) /\
+  forall k, In k (pending s) -> exists c, nth_error (calls s) k = Some c /\ c_fut c = FUnres.
+Proof.
+  intros fl closers s Hfl Hr. pose proof (inv_reach fl closers s Hfl Hr) as Hi.
+  split; [exact (i_nodup s Hi)|].
+  intros k Hk. destruct (i_pend s Hi k Hk) as [c [Hn [Hf _]]]. exists c. auto.
+Qed.
+
+(* ... and a future only ever receives a value from the response frame carrying its own id, while registered *)
+Lemma fail_all_fut : forall e pend cs k c c' b, nth_error cs k = Some c -> nth_error (fail_all e pend cs) k = Some c' ->
+  c_fut c' = FVal b -> c_fut c = FVal b.
+Proof.
+  intros e pend cs k c c' b Hn Hn' Hf. rewrite fail_all_nth, Hn in Hn'. inversion Hn'; subst. clear Hn'.
+  destruct (mem_nat k pend); [cbn in Hf; discriminate|exact Hf].
+Qed.
+
+Lemma teardown_fut : forall fl e s k c c' b, nth_error (calls s) k = Some c ->
+  nth_error (calls (teardown fl e s)) k = Some c' -> c_fut c' = FVal b -> c_fut c = FVal b.
+Proof.
+  intros fl e s k c c' b Hn Hn' Hf. unfold teardown in Hn'. destruct (f_snapshot fl); cbn [calls] in Hn'.
+  - exact (fail_all_fut e (pending s) (calls s) k c c' b Hn Hn' Hf).
+  - rewrite Hn in Hn'. inversion Hn'; subst. exact Hf.
+Qed.
+
+Lemma updc_fut_same : forall s j f k c c', (forall x, c_fut (f x) = c_fut x) ->
+  nth_error (calls s) k = Some c -> nth_error (calls (updc s j f)) k = Some c' -> c_fut c' = c_fut c.
+Proof.
+  intros s j f k c c' Hf Hn Hn'. unfold updc, with_calls in Hn'. cbn [calls] in Hn'. rewrite nth_error_upd, Hn in Hn'.
+  destruct (Nat.eqb j k); cbn in Hn'; inversion Hn'; subst; [apply Hf|reflexivity].
+Qed.
+
+Lemma upd_nth_some : forall A (f : A -> A) cs j k c c', nth_error cs k = Some c -> nth_error (upd j f cs) k = Some c' ->
+  c' = if Nat.eqb j k then f c else c.
+Proof. intros A f cs j k c c' Hn Hn'. rewrite nth_error_upd, Hn in Hn'. destruct (Nat.eqb j k); cbn in Hn'; inversion Hn'; reflexivity. Qed.
+
+Theorem response_resolves_own : forall fl s a s' ev k c c' b,
+  step fl s a = Some (s', ev) ->
+  nth_error (calls s) k = Some c -> nth_error (calls s') k = Some c' ->
+  c_fut c' = FVal b -> c_fut c <> FVal b ->
+  exists ok, a = AResp k ok /\ In k (pending s) /\ b = resp_body k c.
+Proof.
+  intros fl s a s' ev k c c' b Hs Hn Hn' Hf Hne.
+  assert (Hsame : forall j f, (forall x, c_fut (f x) = c_fut x \/ c_fut (f x) = FUnres \/ exists e, c_fut (f x) = FExc e) ->
+                   nth_error (upd j f (calls s)) k = Some c' -> False).
+  { intros j f Hfx Hu. pose proof (upd_nth_some _ f (calls s) j k c c' Hn Hu) as E.
+    destruct (Nat.eqb j k); subst c'; [|exact (Hne Hf)].
+    destruct (Hfx c) as [E|[E|[e E]]]; rewrite E in Hf; [exact (Hne Hf)|discriminate|discriminate]. }
+  assert (Htd : forall e s0, calls s0 = calls s -> nth_error (calls (teardown fl e s0)) k = Some c' -> False).
+  { intros e s0 Hc Ht. apply Hne. apply (teardown_fut fl e s0 k c c' b); [rewrite Hc; exact Hn|exact Ht|exact Hf]. }
+  destruct a as [j|j|j|j|j|j ok|ok| | | |]; cbn [step] in Hs.
+  - destruct (nth_error (calls s) j) as [cj|]; [|discriminate]. destruct (c_pc cj); try discriminate.
+    exfalso. destruct (c_close cj && negb (running s)); [|destruct (copen s)]; inversion Hs; subst;
+      (eapply Hsame; [|exact Hn']; intros x; left; reflexivity).
+  - destruct (nth_error (calls s) j) as [cj|]; [|discriminate]. destruct (c_pc cj); try discriminate.
+    exfalso. inversion Hs; subst. eapply Hsame; [|exact Hn']. intros x; right; left; reflexivity.
+  - destruct (nth_error (calls s) j) as [cj|]; [|discriminate]. destruct (c_pc cj); try discriminate.
+    exfalso. inversion Hs; subst. eapply Hsame; [|exact Hn']. intros x; left; reflexivity.
+  - destruct (nth_error (calls s) j) as [cj|]; [|discriminate]. destruct (c_pc cj); try discriminate.
+    exfalso. destruct (writer s); inversion Hs; subst; (eapply Hsame; [|exact Hn']; intros x; left; reflexivity).
+  - destruct (nth_error (calls s) j) as [cj|]; [|discriminate]. destruct (c_pc cj); try discriminate.
+    exfalso. destruct (c_fut cj); try discriminate; inversion Hs; subst; (eapply Hsame; [|exact Hn']; intros x; left; reflexivity).
+  - destruct (nth_error (calls s) j) as [cj|] eqn:Hj; [|discriminate].
+    destruct (c_sent cj && is_run (lst s)); [|discriminate].
+    destruct (mem_nat j (pending s)) eqn:Em.
+    + set (s1 := with_pending (updc s j (set_fut (FVal (resp_body j cj)))) (remove_nat j (pending s))) in *.
+      assert (H1 : forall c1, nth_error (calls s1) k = Some c1 -> c_fut c1 = FVal b ->
+                              exists ok0, AResp j ok = AResp k ok0 /\ In k (pending s) /\ b = resp_body k c).
+      { intros c1 Hc1 Hf1. unfold s1, with_pending, updc, with_calls in Hc1. cbn [calls] in Hc1.
+        pose proof (upd_nth_some _ _ (calls s) j k c c1 Hn Hc1) as E.
+        destruct (Nat.eqb j k) eqn:Ejk.
+        - apply Nat.eqb_eq in Ejk. subst j. rewrite Hn in Hj. inversion Hj; subst cj. subst c1. cbn in Hf1.
+          inversion Hf1; subst. exists ok. split; [reflexivity|]. split; [apply mem_nat_In; exact Em|reflexivity].
+        - subst c1. exfalso. exact (Hne Hf1). }
+      destruct (resp_body j cj) eqn:Eb.
+      * inversion Hs; subst. exact (H1 c' Hn' Hf).
+      * inversion Hs; subst. clear Hs.
+        unfold teardown in Hn'. destruct (f_snapshot fl); cbn [calls with_running] in Hn'.
+        -- rewrite fail_all_nth in Hn'.
+           destruct (nth_error (calls s1) k) as [c1|] eqn:Hc1; [|discriminate]. inversion Hn'; subst c'. clear Hn'.
+           match type of Hf with context [if ?x then _ else _] => destruct x end; [cbn in Hf; discriminate|]. exact (H1 c1 eq_refl Hf).
+        -- exact (H1 c' Hn' Hf).
+    + exfalso. destruct (resp_body j cj).
+      * unfold dispatch_msg in Hs. destruct ok; inversion Hs; subst.
+        -- rewrite Hn in Hn'. inversion Hn'; subst. exact (Hne Hf).
+        -- exact (Htd _ s eq_refl Hn').
+      * inversion Hs; subst. exact (Htd _ (with_running s false) eq_refl Hn').
+  - exfalso. destruct (is_run (lst s)); [|discriminate]. unfold dispatch_msg in Hs. destruct ok; inversion Hs; subst.
+    + rewrite Hn in Hn'. inversion Hn'; subst. exact (Hne Hf).
+    + exact (Htd _ s eq_refl Hn').
+  - exfalso. destruct (is_run (lst s)); [|discriminate]. inversion Hs; subst. exact (Htd _ (with_running s false) eq_refl Hn').
+  - exfalso. destruct (is_run (lst s)); [|discriminate]. inversion Hs; subst. exact (Htd _ s eq_refl Hn').
+  - exfalso. destruct (is_run (lst s)); [|discriminate]. inversion Hs; subst. exact (Htd _ (with_copen s false) eq_refl Hn').
+  - exfalso. destruct (lst s) as [|e i d| |]; try discriminate. destruct d.
+    + inversion Hs; subst. cbn [calls with_lst] in Hn'. rewrite Hn in Hn'. inversion Hn'; subst. exact (Hne Hf).
+    + destruct (nth_error (pending s) i) as [j|]; inversion Hs; subst.
+      * eapply Hsame; [|exact Hn']. intros x; right; right; eexists; reflexivity.
+      * cbn [calls with_lst with_pending] in Hn'. rewrite Hn in Hn'. inversion Hn'; subst. exact (Hne Hf).
+Qed.
+
+(* T14.drain: once the listener has exited nobody waits for a future that nobody will resolve *)
+Theorem drain_invariant : forall fl closers s, fl_ok fl -> reach fl (init closers) s -> lst s = LExit ->
+  writer s = false /\
+  (forall k, In k (pending s) -> exists c, nth_error (calls s) k = Some c /\ c_fut c = FUnres /\
+     (c_pc c = PRegd \/ c_pc c = PSched \/ c_pc c = PDone (RExc XAttr))) /\
+  (forall k c, nth_error (calls s) k = Some c -> c_pc c = PAwait -> c_fut c <> FUnres).
+Proof.
+  intros fl closers s Hfl Hr Hl. pose proof (inv_reach fl closers s Hfl Hr) as Hi.
+  assert (Haw : forall k c, nth_error (calls s) k = Some c -> c_pc c = PAwait -> c_fut c <> FUnres).
+  { intros k c Hn Hp Hf. pose proof (i_await s Hi k c Hn Hp Hf) as E. rewrite Hl in E. discriminate. }
+  split; [rewrite (i_writer s Hi), Hl; reflexivity|]. split; [|exact Haw].
+  intros k Hk. destruct (i_pend s Hi k Hk) as [c [Hn [Hf Hp]]]. exists c. split; [exact Hn|]. split; [exact Hf|].
+  destruct Hp as [Hp|[Hp|[Hp|Hp]]]; auto. exfalso. exact (Haw k c Hn Hp Hf).
+Qed.
+
+Definition rank (p : pc) : nat :=
+  match p with PIdle => 0 | PChecked => 1 | PRegd => 2 | PSched => 3 | PAwait => 4 | PDone _ => 5 end.
+
+(* ... and every caller that is under way has an enabled step of its own that moves it strictly forward:
+   within four such steps it has returned or raised (ASend raises AttributeError because writer is None) *)
+Theorem drain_progress : forall fl closers s k c, fl_ok fl -> reach fl (init closers) s -> lst s = LExit ->
+  nth_error (calls s) k = Some c -> c_pc c <> PIdle -> (forall r, c_pc c <> PDone r) ->
+  exists a s' ev c', In a [ARegister k; ASchedule k; ASend k; AComplete k] /\ step fl s a = Some (s', ev) /\
+                     nth_error (calls s') k = Some c' /\ rank (c_pc c) < rank (c_pc c') /\ lst s' = LExit.
+Proof.
+  intros fl closers s k c Hfl Hr Hl Hn Hni Hnd.
+  destruct (drain_invariant fl closers s Hfl Hr Hl) as [Hw [_ Haw]].
+  assert (Hupd : forall f, nth_error (calls (updc s k f)) k = Some (f c)).
+  { intros f. unfold updc, with_calls. cbn [calls]. rewrite nth_error_upd, Nat.eqb_refl, Hn. reflexivity. }
+  destruct (c_pc c) eqn:Hp.
+  - contradiction.
+  - exists (ARegister k). eexists. eexists. eexists. split; [cbn; tauto|]. cbn [step]. rewrite Hn, Hp, Hl.
+    split; [reflexivity|]. cbn [calls with_lst with_pending lst]. rewrite Hupd. split; [reflexivity|]. cbn. split; [lia|reflexivity].
+  - exists (ASchedule k). eexists. eexists. eexists. split; [cbn; tauto|]. cbn [step]. rewrite Hn, Hp.
+    split; [reflexivity|]. rewrite Hupd. split; [reflexivity|]. cbn. split; [lia|exact Hl].
+  - exists (ASend k). eexists. eexists. eexists. split; [cbn; tauto|]. cbn [step]. rewrite Hn, Hp, Hw.
+    split; [reflexivity|]. rewrite Hupd. split; [reflexivity|]. cbn. split; [lia|exact Hl].
+  - exists (AComplete k). pose proof (Haw k c Hn Hp) as Hf.
+    destruct (c_fut c) eqn:Ef; [contradiction| |]; eexists; eexists; eexists; (split; [cbn; tauto|]); cbn [step]; rewrite Hn, Hp, Ef;
+      (split; [reflexivity|]); rewrite Hupd; (split; [reflexivity|]); cbn; (split; [lia|exact Hl]).
+  - exfalso. exact (Hnd r eq_refl).
+Qed.
+
+(* =========================================================================== (3) the live-dict loop is refuted *)
+Definition fl_live : flags := mkFlags false true.
+
+(* calls 0 and 1 are waiting for their answers, call 2 has passed is_open(); the connection is lost; the cleanup
+   loop fails future 0; call 2 registers its future; the next iteration raises RuntimeError out of _run *)
+Definition race_trace : list label :=
+  [AInvoke 0; ARegister 0; ASchedule 0; ASend 0; AInvoke 1; ARegister 1; ASchedule 1; ASend 1; AInvoke 2;
+   ACut; AClean; ARegister 2; AClean; ASchedule 2; ASend 2; AComplete 0].
+
+Lemma race_refuted : exists s h,
+  exec fl_live (init_cfg 3 0) race_trace = Some (s, h) /\ quiescent fl_live s = true /\
+  check_history 3 h = false /\ lst s = LCrash /\
+  exists c, nth_error (calls s) 1 = Some c /\ c_pc c = PAwait /\ c_fut c = FUnres.
+Proof.
+  eexists. eexists. split; [vm_compute; reflexivity|].
+  split; [vm_compute; reflexivity|]. split; [vm_compute; reflexivity|]. split; [reflexivity|].
+  eexists. split; [reflexivity|]. split; reflexivity.
+Qed.
+
+(* the same schedule is harmless when a copy is iterated *)
+Lemma race_harmless_with_snapshot : exists s h,
+  exec (mkFlags true true) (init_cfg 3 0)
+       [AInvoke 0; ARegister 0; ASchedule 0; ASend 0; AInvoke 1; ARegister 1; ASchedule 1; ASend 1; AInvoke 2;
+        ACut; ARegister 2; ASchedule 2; ASend 2; AComplete 0; AComplete 1] = Some (s, h) /\
+  quiescent (mkFlags true true) s = true /\ check_history 3 h = true.
+Proof. eexists. eexists. split; [vm_compute; reflexivity|]. split; vm_compute; reflexivity. Qed.
